@@ -66,6 +66,11 @@ def run(ck: Checker, prog: Program, tier: str):
     ck.guard(S.check_accessor_table, ck, prog, cls, "C05.R3", TABLE, GUARDS)
     ck.guard(_cov, ck, prog, cls, "C05.R3", weighted=False)
     ck.guard(S.check_mask_lockstep, ck, prog, "C05.R4")
+    from . import c12, c20
+    with ck.borrow(c12, "C05.R3+"):
+        ck.guard(c12._r3, ck, prog, prog.func(c12.W), prog.func(c12.R))
+    with ck.borrow(c20, "C05.R3+"):
+        ck.guard(c20._r4, ck, prog)
     # "windows without a peak never enter the resonance statistics": the per-window peak search records NaN / False for an
     # absent peak on every path, and the curves the statistics describe are private copies (rules of C08)
     from . import c08
